@@ -471,6 +471,9 @@ class Feedback:
     def override(cls, report=MAIN_REPORT, **fields):
         if cls.__dict__.get('_override_backups') is None:
             cls._override_backups = {}
+        # The report learns about the class first: should a later field be
+        # unknown, the earlier ones are still undone when the report is cleared
+        report.override_feedback(cls)
         for field, new_value in fields.items():
             if field not in cls._override_backups:
                 getattr(cls, field)  # Unknown fields are still an AttributeError
@@ -479,7 +482,6 @@ class Feedback:
                 # copy of whatever the parent held at this moment.
                 cls._override_backups[field] = cls.__dict__.get(field, cls._INHERITED_FIELD)
             setattr(cls, field, new_value)
-        report.override_feedback(cls)
 
     #: Marks a backed-up field that the class did not define itself
     _INHERITED_FIELD = object()
